@@ -229,6 +229,22 @@ impl<'a, 'tcx> Cx<'a, 'tcx> {
                     _ => {}
                 }
             }
+            Const::Unevaluated(uv, _) if !ty.is_fn() && ty.is_ref() => {
+                // named `const X: &str = "..."`: evaluate to recover the literal (never for generic consts)
+                let generic = uv.args.iter().any(|a| a.as_type().map(|t| !t.is_ty_var() && matches!(t.kind(), ty::Param(_))).unwrap_or(false));
+                if !generic && uv.args.is_empty() {
+                    if let Ok(cv @ ConstValue::Slice { .. }) = c.eval(self.tcx, env, rustc_span::DUMMY_SP) {
+                        if let Some(bytes) = cv.try_get_slice_bytes_for_diagnostics(self.tcx) {
+                            if let Ok(s) = std::str::from_utf8(bytes) {
+                                if s.len() <= 400 {
+                                    let _ = write!(o, ",\"s\":{}", js(s));
+                                }
+                            }
+                        }
+                    }
+                }
+                let _ = write!(o, ",\"cdef\":{}", js(&path_str(self.tcx, uv.def)));
+            }
             Const::Val(cv @ ConstValue::Slice { .. }, _) => {
                 if let Some(bytes) = cv.try_get_slice_bytes_for_diagnostics(self.tcx) {
                     if let Ok(s) = std::str::from_utf8(bytes) {
